@@ -16,8 +16,10 @@ open Genshi Genshi.Xml Genshi.Sexp
     tok <text>                         -> ( ok tokens ) | N
     read <text>                        -> ( ok events ) | N
     roundtrip <ranges> <stream>        -> read (enc (ser stream))
-    domain <pref> <stream>             -> ( inDomain conclusionHolds inTextDomain textConclusionHolds ) for
-                                          xml_roundtrip_events / xml_roundtrip_partial
+    domain <pref> <stream>             -> ( inDomain conclusionHolds inTextDomain textConclusionHolds ... ) for
+                                          xml_roundtrip_events / xml_roundtrip_partial / xml_roundtrip /
+                                          ser_idempotent_partial / ser_idempotent_builder(_events) /
+                                          ser_idempotent_parsed_text (see the comments in the verb)
     reparse <text>                     -> ( ok events-after-EmptyTagFilter ) | N   (spec-side parse)
     coalesce <stream>                  -> stream
     qname <text>                       -> ( ns loc )
@@ -111,8 +113,23 @@ def handle : List Sexp → Option Sexp
       let inputHolds := match serRun SerSt.init (flatten p xs) with
         | some out => decide (Reader.read out = some (mergeR (canonX xs)))
         | none => false
+      -- idempotence for builder streams (ser_idempotent_builder_events), and at text level under ASCII
+      -- (ser_idempotent_builder, ser_idempotent_parsed_text)
+      let inB := inDom && builderShaped xs
+      let bHolds := match reparseX PSt.init ((flatten p xs).map normF) with
+        | some xs2 => decide ((flatten p xs2).map normF = (flatten p xs).map normF)
+        | none => false
+      let inBT := inB && inputTextOKm ascii p xs
+      let inPT := inIdem && inputTextOK ascii p xs
+      let textIdemHolds := match serRun SerSt.init (flatten p xs) with
+        | some out =>
+            (match parseText (encodeText ascii out) with
+             | some xs2 => decide (serRun SerSt.init (flatten p xs2) = some out)
+             | none => false)
+        | none => false
       pure (.list [ofBool inDom, ofBool holds, ofBool inText, ofBool textHolds, ofBool inAscii, ofBool asciiHolds,
-                   ofBool inIdem, ofBool idemHolds, ofBool inInput, ofBool inputHolds])
+                   ofBool inIdem, ofBool idemHolds, ofBool inInput, ofBool inputHolds,
+                   ofBool inB, ofBool bHolds, ofBool inBT, ofBool inPT, ofBool textIdemHolds])
   | [.atom "reparse", .str t] =>
       -- what XMLParser + EmptyTagFilter deliver for this text, according to the specification side
       match parseText t with
